@@ -171,6 +171,14 @@ def stale_record_touched(b, l, r):
     return bool(rb) and (_stale_records(l) != rb or _stale_records(r) != rb)
 
 
+def mixed_id_versions(b, l, r):
+    """Input class of F21: one input declares format 4.5 while another one is
+    older and has cells without ids."""
+    nbs = (b, l, r)
+    return any(n.get("nbformat_minor", 0) == 5 for n in nbs) and any(
+        "id" not in c for n in nbs for c in n.get("cells", []))
+
+
 def source_lines(nb):
     out = []
     for c in nb.get("cells", []):
@@ -254,6 +262,8 @@ def merge_obligations(E, b, l, r, args, tool, props, known, info=None):
         errs2 = []
         for e in errs:
             fid = common.match_schema_finding(known, e, E.instance(merged))
+            if fid == "F21" and not mixed_id_versions(b, l, r):
+                fid = None      # outside the recorded input class
             if fid:
                 E.known(fid)
             else:
@@ -487,6 +497,9 @@ def scenario_shards(tier, tool, kw):
     add("unicode", templates=("codeU",), acts="ACTS_LINES", ins=(0, 0))
     add("lines", templates=("codeA",), acts="ACTS_LINES", ins=(0, 0))
     add("intkeys", templates=("mdAtt1",), acts="ACTS_INTKEYS", ins=(0, 0))
+    out.append(("make_default", "scn-upgrade-%s" % tool,
+                dict(dict(kw, ids=(0,)), tool=tool, templates=("codeA",), acts="ACTS_WARM", ins=(1, 1),
+                     nbacts=("keep", "upgrade"))))
     add("second-merge", templates=("codeA",), acts="ACTS_WARM", ins=(1, 1), warm=True)
     add("stale-md", templates=("codeStale",), acts="ACTS_STALE", ins=(0, 0))
     add("stale-md0", templates=("codeStale0",), acts="ACTS_STALE", ins=(0, 0))
@@ -988,7 +1001,7 @@ BOUNDS = {
 }
 OUTSIDE = ["more than two base cells (three in the ownership harness) and more than one insertion per side",
            "string contents outside the pools of gen/notebooks.py", "merges of notebooks of different major versions",
-           "base notebooks without ids merged with sides that upgraded to ids"]
+           "sides that upgraded a 4.4 base to 4.5 beyond the scn-upgrade scenario (one cell, four actions, one insertion per side)"]
 
 
 def f16_witness(chk, known):
